@@ -64,6 +64,12 @@ claim("C13", "fault_enumeration",
   "deterministic simulation: simulated disk (volatile/durable layers) with enumerated crash points, power-loss models, truncation sweep, read faults, baton-scheduled concurrent writers",
   "DESIGN.md §5 C13")
 
+claim("C10", "exploration",
+  "Seeded schedule search over real goroutines under a baton scheduler on an instrumented scratch copy (statement-level yields in runtime.go, builder.go and the store files; scheduler-aware sync/atomic shims): 2-4 clients x 2-6 operations over a small name set; the recorded invoke/return history plus a sequential probe is checked with porcupine against the atomic-registry specification; additionally no operation may panic, no deadlock, and close notifications fire exactly once for closed modules. Policies: uniform, PCT-style, sequential. Sampling of schedules, not exhaustive.",
+  "Trusted: the go/ast instrumenter and shims (forwarding outside the simulation), the registry specification (about 120 lines), porcupine v1.3.0. Interleavings are decided at inserted yield points only. Two known findings are recognised by signature (two-phase close via a relaxed specification; compiled-entry deletion via error text + history condition).",
+  "deterministic simulation: seeded baton scheduler over instrumented real code, linearizability checking of recorded histories (porcupine), schedule shrinking + replay",
+  "DESIGN.md §5 C10")
+
 def main():
     m = dict(version=1,
       setup_cmd="./setup.sh",
